@@ -6,6 +6,8 @@
                                               -> L <level> <lockvalue|-> <q> <u> <prescribed udot|->  after every op *)
 open C10
 #include "fops.inc"
+let rec n2i = function O -> 0 | S n -> 1 + n2i n
+let rec i2n i = if i <= 0 then O else S (i2n (i - 1))
 let lev_of_int = function 2 -> Position | 1 -> Velocity | 0 -> Acceleration | _ -> NoLevel
 let int_of_lev = function Position -> 2 | Velocity -> 1 | Acceleration -> 0 | NoLevel -> -1
 let h x = Printf.sprintf "%h" x
@@ -13,7 +15,7 @@ let opt = function Some x -> h x | None -> "-"
 let f s = float_of_string s
 let mob0 mo on = { lk = NoLevel; lockedQ = 0.0; lockedU = 0.0; q = 0.0; u = 0.0; mot = mo; mot_on = on }
 let () =
-  let st = ref (mob0 None false) in let tlast = ref 0.0 in let inlock = ref false in
+  let st = ref (mob0 None false) in let deflt = ref (mob0 None false) in let tlast = ref 0.0 in let inlock = ref false in
   try while true do
     let line = input_line stdin in
     match toks line with
@@ -28,7 +30,9 @@ let () =
          | 4 -> mob0 None false, [LockAt (Position, p1); SetQ 7.0; SetU 3.0; Prescribe t], true
          | 5 -> mob0 None false, [SetU p1; Lock Velocity; SetU 9.0; Prescribe t], false
          | 6 -> mob0 None false, [LockAt (Acceleration, p1); Prescribe t], false
-         | _ -> mob0 (Some (Sinusoid (Position, 0.3, w, ph))) true, [LockAt (Velocity, p1); Prescribe t], false in
+         | 7 -> mob0 (Some (Sinusoid (Position, 0.3, w, ph))) true, [LockAt (Velocity, p1); Prescribe t], false
+         | 8 -> mob0 (Some (Sinusoid (Velocity, p1, w, ph))) true, [Prescribe t], false
+         | _ -> mob_default fops Position 0.0 None false, [SetQ 7.0; SetU 3.0; Prescribe t], true in
        let m' = run fops m ops in
        let (pq, pu), pud = presc fops m' t in
        Printf.printf "E %s %s %s\n" (if showq then (match pq with Some _ -> h m'.q | None -> "-") else "-")
@@ -38,8 +42,25 @@ let () =
        let qd = f qd and qdd = f qdd in
        let (((((u0, u1), u2), ((a0, a1), a2)), ((d0, d1), d2)), ((e0, e1), e2)) = presc_all fops true ((f q0, f q1), f q2) ((qd, qd), qd) ((qdd, qdd), qdd) in
        Printf.printf "B %s %s %s %s %s %s %s %s %s %s %s %s\n" (h u0) (h u1) (h u2) (h a0) (h a1) (h a2) (h d0) (h d1) (h d2) (h e0) (h e1) (h e2)
-    | "LOCK" :: id :: _ -> st := mob0 (Some (Sinusoid (Position, 0.5, 1.5, 0.25))) false; tlast := 0.0; inlock := true; Printf.printf "LOCK %s\n" id
+    | "MP" :: rest ->
+       (* MP <nmob> (<nu> <free>)*nmob <ntau> tau* <nu> u*  ->  M slots | unpacked motion forces | motion power *)
+       let a = Array.of_list rest in let pos = ref 0 in let nx () = let v = a.(!pos) in incr pos; v in
+       let nmob = int_of_string (nx ()) in
+       let mobs = List.init nmob (fun _ -> let n = int_of_string (nx ()) in let fr = nx () = "1" in (i2n n, fr)) in
+       let ntau = int_of_string (nx ()) in let tau = List.init ntau (fun _ -> f (nx ())) in
+       let nu = int_of_string (nx ()) in let uu = List.init nu (fun _ -> f (nx ())) in
+       let slots = pres_slots O mobs in
+       Printf.printf "M %s | %s | %s\n" (String.concat " " (List.map (fun x -> string_of_int (n2i x)) slots))
+         (String.concat " " (List.map h (unpack fops (total_nu mobs) slots tau))) (h (motion_power fops slots tau uu))
+    | "LOCK" :: id :: rest ->
+       let dl = (match rest with d :: _ -> lev_of_int (int_of_string d) | [] -> NoLevel) and q0 = (match rest with _ :: q :: _ -> f q | _ -> 0.0) in
+       deflt := mob_default fops dl q0 (Some (Sinusoid (Position, 0.5, 1.5, 0.25))) false;
+       st := !deflt; tlast := 0.0; inlock := true; Printf.printf "LOCK %s\n" id;
+       Printf.printf "L %d %s %s %s %s\n" (int_of_lev !st.lk) (opt (lock_value !st)) (h !st.q) (h !st.u) (opt (presc_udot fops !st !tlast))
     | "END" :: _ -> inlock := false; print_string "END\n"
+    | "RS" :: _ when !inlock ->
+       st := !deflt;
+       Printf.printf "L %d %s %s %s %s\n" (int_of_lev !st.lk) (opt (lock_value !st)) (h !st.q) (h !st.u) (opt (presc_udot fops !st !tlast))
     | o :: rest when !inlock ->
        let a = match rest with x :: _ -> x | [] -> "0" in let b = match rest with _ :: y :: _ -> y | _ -> "0" in
        let op = match o with
